@@ -96,8 +96,13 @@ def cfg(maxlen, limits):
     with open(path, "w") as f:
         f.write("CONSTANTS Sources = {%s} CallSources = {5, 29} CallSrcSources = {15} Limits = {%s} MaxLen = %d\n"
                 "INIT Init\nNEXT Next\nINVARIANT Emit\nCHECK_DEADLOCK FALSE\n"
-                % (", ".join(str(i) for i in range(len(SOURCES))), ", ".join(map(str, limits)), maxlen))
+                % (", ".join(str(i) for i in (range(len(SOURCES)) if maxlen < 4 else LEN4_SOURCES)), ", ".join(map(str, limits)), maxlen))
     return path
+
+
+# histories of length 4 are enumerated over a part of the pool only (the whole pool gives 16.5 million
+# histories): the sources with shared state, the failing kinds and the call sources
+LEN4_SOURCES = [0, 3, 4, 5, 9, 10, 11, 12, 13, 14, 15, 16, 27, 28, 29]
 
 
 BIG = 100000
